@@ -261,6 +261,8 @@ class Interp:
             return container.contains(item)
         if isinstance(container, str) and isinstance(item, SStr):
             raise Inapplicable("symbolic needle in concrete string")
+        if isinstance(container, SymObject) and hasattr(container, "contains"):
+            return container.contains(item)
         if isinstance(item, SEnum):
             import enum
             if isinstance(container, enum.EnumMeta):
